@@ -39,6 +39,31 @@ theorem name_denotes_one (s : String) (h : s ∈ documentedNames) :
 theorem name_surjective (n : Name) (h : ValidName n) :
     ∃ s, s ∈ documentedNames ∧ parseBankName s = .ok n := BankName.name_surjective n h
 
+/-- Board tables: names, MAC addresses and device ids pairwise distinct; a PadWing device id is
+the little-endian u32 of the first four MAC bytes; names are two characters. -/
+theorem board_tables_distinct :
+    (alpha16Boards.map (fun r => r.1)).Nodup ∧ (alpha16Boards.map (fun r => r.2)).Nodup
+    ∧ (padwingBoards.map (fun r => r.1)).Nodup ∧ (padwingBoards.map (fun r => r.2.1)).Nodup
+    ∧ (padwingBoards.map (fun r => r.2.2)).Nodup
+    ∧ (∀ r, r ∈ padwingBoards → r.2.1.length = 6 ∧ (∀ x, x ∈ r.2.1 → x < 256)
+        ∧ r.2.2 = r.2.1.getD 0 0 + 256 * (r.2.1.getD 1 0 + 256 * (r.2.1.getD 2 0 + 256 * r.2.1.getD 3 0)))
+    ∧ (∀ r, r ∈ alpha16Boards → r.2.length = 6 ∧ (∀ x, x ∈ r.2 → x < 256))
+    ∧ (∀ r, r ∈ alpha16Boards → r.1.toList.length = 2)
+    ∧ (∀ r, r ∈ padwingBoards → r.1.toList.length = 2) := BankName.board_tables_distinct
+
+/-- No `match run_number` arm of the three map dispatches is shadowed by an earlier one. -/
+theorem no_shadowed_arm :
+    (noShadowedArm wirePreampArms && noShadowedArm wireChannelArms && noShadowedArm pwbArms)
+      = true := Maps.no_shadowed_arm
+
+/-- The six calibration dispatches: errors below their first run, a map from there on (no gap),
+no shadowed arm. -/
+theorem calibration_dispatch (c : String × Arms × List (String × String)) (hc : c ∈ calArms)
+    (run : UInt32) :
+    (run.toNat < firstMapRun c.2.1 → isErrAt c.2.1 run.toNat = true)
+    ∧ (firstMapRun c.2.1 ≤ run.toNat → hasMapAt c.2.1 run.toNat = true) :=
+  ⟨fun h => cal_before_first c hc _ run.toNat_lt h, fun h => cal_no_gap c hc _ run.toNat_lt h⟩
+
 /-- No string makes a bank-name parser panic. -/
 theorem bankName_total (s : String) : NoPanic (parseBankName s) := BankName.bankName_total s
 
